@@ -68,6 +68,9 @@ pub enum Op {
     MsmLeBits(usize),
     /// BLS12-381: `assert_in_bls12_381_subgroup`
     BlsSubgroup,
+    /// foreign: `k_out_of_n_points`. in: P×n (the table, assigned and exposed), H×k (the selected
+    /// points, witness only)                                     out: P×k
+    KOutOfN { n: usize, k: usize },
 }
 
 impl Op {
@@ -90,6 +93,7 @@ impl Op {
             Op::JubMulBytes(n) => [vec![Y; *n], vec![P]].concat(),
             Op::HashToCurve(n) => vec![N; *n],
             Op::MsmLeBits(n) => [vec![B; *n], vec![P]].concat(),
+            Op::KOutOfN { n, k } => [vec![P; *n], vec![H; *k]].concat(),
         }
     }
 
@@ -100,6 +104,7 @@ impl Op {
             Op::Coords => vec![C, C],
             Op::IsEqual | Op::IsEqualFixed(_) | Op::IsZero => vec![B],
             Op::CondSwap => vec![P, P],
+            Op::KOutOfN { k, .. } => vec![P; *k],
             _ => vec![P],
         }
     }
@@ -242,6 +247,25 @@ impl Op {
                 }
                 vec![]
             }
+            Op::KOutOfN { n, k } => {
+                // contract (doc comment of k_out_of_n_points): the table points cannot be the
+                // identity (else unsatisfiable); the selected points must be given in order of
+                // occurrence in the table (else a synthesis error); the returned points are on the
+                // table and correspond to different table entries.
+                let table: Vec<&RP> = ins[..*n].iter().map(|v| v.p()).collect();
+                if table.iter().any(|t| c.is_id(t)) {
+                    return None;
+                }
+                let mut last: Option<usize> = None;
+                for s in &ins[*n..*n + *k] {
+                    let idx = table.iter().position(|t| *t == s.p())?;
+                    if last.map(|l| idx <= l).unwrap_or(false) {
+                        return None;
+                    }
+                    last = Some(idx);
+                }
+                ins[*n..*n + *k].iter().map(|s| Val::P(s.p().clone())).collect()
+            }
         })
     }
 }
@@ -308,6 +332,7 @@ fn assign_kind<V: Cv>(s: &ZkStdLib, l: &mut impl Layouter<F>, k: Kind, v: Value<
                 _ => panic!("harness: byte expected"),
             }),
         )?),
+        Kind::H => Asg::H(v.map(|v| v.p().clone())),
     })
 }
 
@@ -319,6 +344,7 @@ fn expose<V: Cv>(s: &ZkStdLib, l: &mut impl Layouter<F>, a: &Asg<V>) -> Result<(
         Asg::B(x) => s.constrain_as_public_input(l, x),
         Asg::N(x) => s.constrain_as_public_input(l, x),
         Asg::Y(x) => s.constrain_as_public_input(l, x),
+        Asg::H(_) => Ok(()),
     }
 }
 
@@ -442,7 +468,65 @@ pub enum Verdict {
     Unjudged,
 }
 
+/// `k_out_of_n_points`: the selection is not public, so the bound statement is judged against
+/// what the documentation promises: every returned point is on the table and the returned points
+/// correspond to different table entries.
+fn judge_k_out_of_n<V: Cv>(n: usize, k: usize, pi: &[F]) -> Verdict {
+    let c = V::cref();
+    let w = V::width(Kind::P);
+    if pi.len() < (n + k) * w {
+        return Verdict::WrongOutput("public-input vector too short".into());
+    }
+    let mut table = vec![];
+    for i in 0..n {
+        match V::dec(Kind::P, &pi[i * w..(i + 1) * w]) {
+            Ok(Val::P(p)) => table.push(p),
+            Ok(_) => unreachable!(),
+            Err(why) => return Verdict::InvalidInput(format!("table entry {i}: {why}")),
+        }
+    }
+    if table.iter().any(|t| c.is_id(t)) {
+        return Verdict::OutsideDomain;
+    }
+    let mut outs = vec![];
+    for j in 0..k {
+        match V::dec(Kind::P, &pi[(n + j) * w..(n + j + 1) * w]) {
+            Ok(Val::P(p)) => outs.push(p),
+            Ok(_) => unreachable!(),
+            Err(why) => return Verdict::WrongOutput(format!("returned point {j} is not a value of its type: {why}")),
+        }
+    }
+    for (j, o) in outs.iter().enumerate() {
+        if !table.contains(o) {
+            return Verdict::WrongOutput(format!("returned point {j} is not on the table"));
+        }
+    }
+    // injective assignment of returned points to table entries (tables may hold duplicates)
+    fn matching(j: usize, outs: &[RP], table: &[RP], used: &mut Vec<bool>) -> bool {
+        if j == outs.len() {
+            return true;
+        }
+        for i in 0..table.len() {
+            if !used[i] && table[i] == outs[j] {
+                used[i] = true;
+                if matching(j + 1, outs, table, used) {
+                    return true;
+                }
+                used[i] = false;
+            }
+        }
+        false
+    }
+    if !matching(0, &outs, &table, &mut vec![false; n]) {
+        return Verdict::WrongOutput("the returned points do not correspond to different table entries".into());
+    }
+    Verdict::Consistent
+}
+
 pub fn judge<V: Cv>(e: &Entry<V>, pi: &[F]) -> Verdict {
+    if let Op::KOutOfN { n, k } = &e.op {
+        return judge_k_out_of_n::<V>(*n, *k, pi);
+    }
     let mut ins = vec![];
     let mut outs = vec![];
     for (pos, k, is_in) in e.slots() {
